@@ -10,7 +10,9 @@ let cls_table = [
   "IndexError", C_IndexError; "ValueError", C_ValueError; "UnicodeError", C_UnicodeError;
   "TypeError", C_TypeError; "OSError", C_OSError; "FileNotFoundError", C_FileNotFoundError;
   "RuntimeError", C_RuntimeError; "RecursionError", C_RecursionError; "StopIteration", C_StopIteration;
-  "UserError", C_UserError; "UserKeyError", C_UserKeyError; "UserBase", C_UserBase; "UserExit", C_UserExit ]
+  "UserError", C_UserError; "UserKeyError", C_UserKeyError; "UserBase", C_UserBase; "UserExit", C_UserExit;
+  "BaseExceptionGroup", C_BaseExceptionGroup; "ExceptionGroup", C_ExceptionGroup; "UserGroup", C_UserGroup;
+  "UserBaseGroup", C_UserBaseGroup; "UserProxy", C_UserProxy; "UserMeta", C_UserMeta ]
 
 let get_cls x = let s = get_sym x in
   try List.assoc s cls_table with Not_found -> bad ("cls: " ^ s)
